@@ -140,6 +140,11 @@ pub fn typed_cfg() -> Cfg {
     Cfg { max_ports: 32, ..cfg(32, 128, MDS, 2, 2) }
 }
 
+/// Configuration for scenarios whose carrier values must never need the streaming helper threads.
+pub fn carrier_cfg() -> Cfg {
+    Cfg { max_data_size: 8192, ..typed_cfg() }
+}
+
 /// Two endpoints with a base channel from A (sending `TA`) to B (receiving `RB`) and one back.
 pub async fn base_pair<TA, RB, TB, RA>(
     env: &Env, cfg_a: Cfg, cfg_b: Cfg, link: LinkOpts,
